@@ -942,7 +942,13 @@ func vRunControl(c *vCase) {
 	if kind == "selfend" {
 		endAt = vRange(r, 2, nreq-2)
 	}
+	stopFirst := vChance(r, 0.3) // after the source has ended by itself the very next request is Stop, then a new Start
 	for i := 0; i < nreq && !k.dead; i++ {
+		if stopFirst && k.selfEnded && (k.settled || kind == "erroring") {
+			c.Cov("stop_is_first_request_after_self_termination", 1)
+			k.reqStop()
+			break
+		}
 		if i == endAt && vChance(r, 0.4) {
 			// a request waits through a long block; while it waits the source ends itself, so that the core
 			// loop finds the request and the end of the source ready at the same time
@@ -1043,6 +1049,23 @@ func vRunControl(c *vCase) {
 		}
 	}
 	if !k.dead {
+		// whatever happened before (also a source that ended by itself): the server accepts a new source
+		var okay bool
+		var str string
+		if err := k.sc.ConfigureTriangleSource(&TriangleSourceConfig{Nchan: 2, SampleRate: 200000, Min: 100, Max: 300}, &okay); err == nil {
+			name := "TRIANGLESOURCE"
+			k.kind = "triangle"
+			k.nchan = 2
+			if e, ret := k.do("Start(triangle) after the session", "ok", func() error { return k.sc.Start(&name, &okay) }); ret && e == nil {
+				k.active, k.selfEnded, k.settled = true, false, false
+				k.progress("Start(triangle) after the session")
+				k.do("Stop()", "ok", func() error { return k.sc.Stop(&str, &okay) })
+				k.active = false
+				c.Cov("restarts_through_the_server", 1)
+			}
+		}
+	}
+	if !k.dead {
 		c.Nontrivial()
 	} else if k.self != nil {
 		// do not leave the producer running
@@ -1079,7 +1102,7 @@ func init() {
 			Assumptions: []string{"single client (one goroutine issuing requests)", "the fire-and-forget mode of SetExperimentStateLabel is excluded as the property says", "where the statement does not fix the reply (raw-block size 0, deleting a connection that cannot exist, reading a comment after self-termination) either reply is accepted",
 				"hangs are decided by wait-state analysis of two goroutine dumps 2 s apart after a 15 s watchdog, never by the clock alone"},
 			Guards: map[string]map[string]int{
-				"quick":    {"requests": 2500, "progress_checks": 1000, "requests_while_block_in_process": 100, "requests_after_self_termination": 150, "requests_pending_when_source_ends": 8, "io_fault_comment": 5, "effects_run": 800, "source_triangle": 40, "source_lancero": 20, "source_selfend": 40, "source_erroring": 20, "writing_sessions": 30},
+				"quick":    {"requests": 2500, "progress_checks": 1000, "requests_while_block_in_process": 100, "requests_after_self_termination": 150, "requests_pending_when_source_ends": 8, "io_fault_comment": 5, "effects_run": 800, "source_triangle": 40, "source_lancero": 20, "source_selfend": 40, "source_erroring": 20, "writing_sessions": 30, "restarts_through_the_server": 120, "stop_is_first_request_after_self_termination": 8},
 				"thorough": {"requests": 30000, "requests_after_self_termination": 2000},
 			}},
 	})
